@@ -42,9 +42,11 @@ fn gap_kind(g: &[Item]) -> u8 {
     }
 }
 
-const COMMENT_ATOMS: [&str; 26] = [
+const COMMENT_ATOMS: [&str; 32] = [
     "", " ", "x", "text", "\"", "\"a\"", "//", "/*", "/", "*", "+", "-", "=", "&", "|", "(", ")", ",", ";", "1e", "ä", "日本", "\t",
     "\\", "a b", "😀",
+    // characters a line-ending normaliser might mistake for the end of a line comment (only `\n` ends one)
+    "\r", "\rx", "\u{b}", "\u{c}", "\u{85}", "\u{2028}",
 ];
 
 fn arb_comment_text(block: bool) -> BoxedStrategy<String> {
